@@ -69,7 +69,7 @@ func profileFor(check, tier, variant string) *CheckDef {
 		d.MinClients, d.MaxClients = 2, 5
 		d.MinOps, d.MaxOps = 3, 10
 		d.Readers, d.ExtRead, d.SharedReads, d.History = true, true, true, false
-		d.Concurrent, d.EarlyClose = true, true
+		d.Concurrent, d.EarlyClose, d.SnapReads = true, true, true
 		d.MaxWindows = 6000
 	case "C15close":
 		// Close at arbitrary moments, one release per window (replayable)
@@ -130,7 +130,7 @@ func profileFor(check, tier, variant string) *CheckDef {
 	case "C12big":
 		d.Check = "C12"
 		d.MinClients, d.MaxClients = 1, 1
-		d.MinOps, d.MaxOps = 420, 470
+		d.MinOps, d.MaxOps = 190, 230
 		d.FSOnly, d.Images, d.NoMerge = true, true, true
 		d.PostRun = snapPostRun
 	case "C14":
